@@ -158,8 +158,8 @@ Definition create (cfg : config) (m : method) : outcome unit :=
 Definition sort_objectives (cfg : config) (sort : list nat) (first last : nat) (objs : list (list oQ)) : list Q :=
   sort_and_select (map (objective_key (c_ow cfg) sort) objs) (c_rw cfg) (col0_failed objs) first last.
 
-Definition sort_constraint (cfg : config) (sort first last : nat) (cons : list (list oQ)) : list Q :=
-  sort_and_select (constraint_col sort cons) (c_rw cfg) (col0_failed cons) first last.
+Definition sort_constraint (cfg : config) (sort first last : nat) (cns : list (list oQ)) : list Q :=
+  sort_and_select (constraint_col sort cns) (c_rw cfg) (col0_failed cns) first last.
 
 Definition cvar_objective_keys (cfg : config) (sort : list nat) (objs : list (list oQ)) : list Q :=
   map (fun row => - objective_key (c_ow cfg) sort row) objs.
@@ -167,28 +167,28 @@ Definition cvar_objective_keys (cfg : config) (sort : list nat) (objs : list (li
 Definition cvar_objectives (cfg : config) (sort : list nat) (p : Q) (objs : list (list oQ)) : list Q :=
   cvar_weights p (cvar_objective_keys cfg sort objs) (col0_failed objs).
 
-Definition cvar_constraint_keys (cfg : config) (sort : nat) (cons : list (list oQ)) : list Q :=
-  map (fun c => - badness (nth sort (c_lower cfg) NInf) (nth sort (c_upper cfg) PInf) c) (constraint_col sort cons).
+Definition cvar_constraint_keys (cfg : config) (sort : nat) (cns : list (list oQ)) : list Q :=
+  map (fun c => - badness (nth sort (c_lower cfg) NInf) (nth sort (c_upper cfg) PInf) c) (constraint_col sort cns).
 
-Definition cvar_constraint (cfg : config) (sort : nat) (p : Q) (cons : list (list oQ)) : list Q :=
-  cvar_weights p (cvar_constraint_keys cfg sort cons) (col0_failed cons).
+Definition cvar_constraint (cfg : config) (sort : nat) (p : Q) (cns : list (list oQ)) : list Q :=
+  cvar_weights p (cvar_constraint_keys cfg sort cns) (col0_failed cns).
 
 (* the vector computed by the method; None = "case _" (constraint method without constraints) *)
-Definition method_weights (cfg : config) (m : method) (objs : list (list oQ)) (cons : option (list (list oQ)))
+Definition method_weights (cfg : config) (m : method) (objs : list (list oQ)) (cns : option (list (list oQ)))
   : option (list Q) :=
   match m with
   | SortObjective sort f l => Some (sort_objectives cfg sort f l objs)
-  | SortConstraint sort f l => option_map (sort_constraint cfg sort f l) cons
+  | SortConstraint sort f l => option_map (sort_constraint cfg sort f l) cns
   | CvarObjective sort p => Some (cvar_objectives cfg sort p objs)
-  | CvarConstraint sort p => option_map (cvar_constraint cfg sort p) cons
+  | CvarConstraint sort p => option_map (cvar_constraint cfg sort p) cns
   end.
 
 Definition any_positive (w : list Q) : bool := existsb (Qltb 0) w.
 
 (* get_realization_weights *)
-Definition get_weights (cfg : config) (m : method) (objs : list (list oQ)) (cons : option (list (list oQ)))
+Definition get_weights (cfg : config) (m : method) (objs : list (list oQ)) (cns : option (list (list oQ)))
   : outcome (list Q) :=
-  match method_weights cfg m objs cons with
+  match method_weights cfg m objs cns with
   | None => Raise "ConfigError"
   | Some w => if any_positive w then Ok w else Abort too_few
   end.
@@ -208,16 +208,16 @@ Definition default_matrix (m : option matrix) (rows : nat) (w : list Q) : matrix
   match m with Some x => x | None => repeat w rows end.
 
 Fixpoint filter_loop (cfg : config) (filters : list method) (idx : Z) (ofm cfm : option (list Z))
-    (objs : list (list oQ)) (cons : option (list (list oQ))) (ow cw : option matrix)
+    (objs : list (list oQ)) (cns : option (list (list oQ))) (ow cw : option matrix)
   : outcome (option matrix * option matrix) :=
   match filters with
   | [] => Ok (ow, cw)
   | m :: rest =>
       let ao := applies ofm idx in
       let ac := applies cfm idx in
-      if none_applies ao && none_applies ac then filter_loop cfg rest (idx + 1)%Z ofm cfm objs cons ow cw
+      if none_applies ao && none_applies ac then filter_loop cfg rest (idx + 1)%Z ofm cfm objs cns ow cw
       else
-        match get_weights cfg m objs cons with
+        match get_weights cfg m objs cns with
         | Ok w =>
             let ow' := match ao with
                        | Some a => Some (set_rows a w (default_matrix ow (length (c_ow cfg)) (c_rw cfg)))
@@ -225,28 +225,28 @@ Fixpoint filter_loop (cfg : config) (filters : list method) (idx : Z) (ofm cfm :
             let cw' := match ac with
                        | Some a => Some (set_rows a w (default_matrix cw (length (c_lower cfg)) (c_rw cfg)))
                        | None => cw end in
-            filter_loop cfg rest (idx + 1)%Z ofm cfm objs cons ow' cw'
+            filter_loop cfg rest (idx + 1)%Z ofm cfm objs cns ow' cw'
         | Abort c => Abort c
         | Raise s => Raise s
         end
   end.
 
 Definition filtered_weights (cfg : config) (filters : list method) (ofm cfm : option (list Z))
-    (objs : list (list oQ)) (cons : option (list (list oQ))) :=
-  filter_loop cfg filters 0%Z ofm cfm objs cons None None.
+    (objs : list (list oQ)) (cns : option (list (list oQ))) :=
+  filter_loop cfg filters 0%Z ofm cfm objs cns None None.
 
 (* ---- one function evaluation with the default (mean) estimator --------------------------- *)
 (* _propagate_nan_values: a NaN anywhere in a realization's objectives or constraints fails it *)
 Definition row_failed (row : list oQ) : bool := existsb is_none row.
 Definition blank_rows (f : list bool) (m : list (list oQ)) : list (list oQ) :=
   map (fun fr : bool * list oQ => if fst fr then map (fun _ => None) (snd fr) else snd fr) (combine f m).
-Definition propagate_nan (objs : list (list oQ)) (cons : option (list (list oQ))) :=
+Definition propagate_nan (objs : list (list oQ)) (cns : option (list (list oQ))) :=
   let fo := map row_failed objs in
-  let f := match cons with
+  let f := match cns with
            | None => fo
            | Some c => map (fun ab : bool * bool => fst ab || snd ab) (combine fo (map row_failed c))
            end in
-  (blank_rows f objs, option_map (blank_rows f) cons).
+  (blank_rows f objs, option_map (blank_rows f) cns).
 
 Definition column (j : nat) (m : list (list oQ)) : list Q := map (fun row => nan0 (nth j row None)) m.
 
@@ -272,7 +272,7 @@ Definition all_failed (f : list bool) : bool := forallb (fun b => b) f.
 
 (* EnsembleEvaluator.__init__ followed by one calculate(compute_functions=True) on a single vector *)
 Definition evaluate (cfg : config) (filters : list method) (ofm cfm : option (list Z)) (rmin : nat)
-    (objs0 : list (list oQ)) (cons0 : option (list (list oQ))) : outcome evaluation :=
+    (objs0 : list (list oQ)) (cns0 : option (list (list oQ))) : outcome evaluation :=
   let fix init (fs : list method) : outcome unit :=
     match fs with
     | [] => Ok tt
@@ -282,8 +282,8 @@ Definition evaluate (cfg : config) (filters : list method) (ofm cfm : option (li
   | Abort c => Abort c
   | Raise s => Raise s
   | Ok _ =>
-    let (objs, cons) := propagate_nan objs0 cons0 in
-    match filtered_weights cfg filters ofm cfm objs cons with
+    let (objs, cns) := propagate_nan objs0 cns0 in
+    match filtered_weights cfg filters ofm cfm objs cns with
     | Abort c => Abort c
     | Raise s => Raise s
     | Ok (ow, cw) =>
@@ -293,8 +293,8 @@ Definition evaluate (cfg : config) (filters : list method) (ofm cfm : option (li
       let fn :=
         if Nat.ltb (count_ok failed) rmin then None
         else if all_failed failed then
-          Some (repeat None no, option_map (fun _ => repeat None nc) cons)
-        else Some (estimate cfg ow failed no objs, option_map (estimate cfg cw failed nc) cons) in
+          Some (repeat None no, option_map (fun _ => repeat None nc) cns)
+        else Some (estimate cfg ow failed no objs, option_map (estimate cfg cw failed nc) cns) in
       Ok {| e_failed := failed; e_ow := ow; e_cw := cw; e_functions := fn |}
     end
   end.
@@ -390,3 +390,145 @@ Definition near_integer (p : Q) (n : nat) : bool :=
 
 Definition same_zero_pattern (a b : list Q) : bool :=
   forallb2 (fun x y => Bool.eqb (Qeqb x 0) (Qeqb y 0)) a b.
+
+(* ---- acceptance of one implementation answer (shared by Check/Chk_C04.v and Check/Chk_C05.v) -- *)
+(* the (ranking values, failure mask) a method works on *)
+Definition method_inputs (cfg : config) (m : method) (objs : list (list oQ)) (cns : option (list (list oQ)))
+  : option (list Q * list bool) :=
+  match m with
+  | SortObjective sort _ _ => Some (map (objective_key (c_ow cfg) sort) objs, col0_failed objs)
+  | SortConstraint sort _ _ => option_map (fun c => (constraint_col sort c, col0_failed c)) cns
+  | CvarObjective sort _ => Some (cvar_objective_keys cfg sort objs, col0_failed objs)
+  | CvarConstraint sort _ => option_map (fun c => (cvar_constraint_keys cfg sort c, col0_failed c)) cns
+  end.
+
+(* helper level: one answer of _sort_and_select / _get_cvar_weights_from_percentile *)
+Definition select_answer_ok (values cfgw : list Q) (failed : list bool) (first last : nat) (w : list Q) : bool :=
+  window_ok values cfgw failed first last w &&
+  (negb (distinct_keys values failed) || list_eqb Qeqb w (sort_and_select values cfgw failed first last)).
+
+Definition cvar_answer_ok (p : Q) (values : list Q) (failed : list bool) (w : list Q) : bool :=
+  stair_ok p values failed w &&
+  (negb (distinct_keys values failed) ||
+   let mw := cvar_weights p values failed in
+   forallb2 (close 1) w mw && (near_integer p (count_ok failed) || same_zero_pattern w mw)).
+
+(* a weight vector returned by get_realization_weights *)
+Definition weights_ok (cfg : config) (m : method) (objs : list (list oQ)) (cns : option (list (list oQ)))
+    (w : list Q) : bool :=
+  match method_inputs cfg m objs cns with
+  | None => false
+  | Some (values, failed) =>
+      any_positive w &&
+      match m with
+      | SortObjective _ f l | SortConstraint _ f l => select_answer_ok values (c_rw cfg) failed f l w
+      | CvarObjective _ p | CvarConstraint _ p => cvar_answer_ok p values failed w
+      end
+  end.
+
+(* an OptimizationAborted raised by get_realization_weights *)
+Definition abort_ok (cfg : config) (m : method) (objs : list (list oQ)) (cns : option (list (list oQ)))
+    (code : Z) : bool :=
+  Z.eqb code too_few &&
+  match method_inputs cfg m objs cns with
+  | None => false
+  | Some (values, failed) =>
+      match m with
+      | SortObjective _ f l | SortConstraint _ f l => window_may_abort values (c_rw cfg) failed f l
+      | CvarObjective _ _ | CvarConstraint _ _ => Nat.eqb (count_ok failed) 0
+      end
+  end.
+
+(* construction followed by get_realization_weights *)
+Definition filter_answer_ok (cfg : config) (m : method) (objs : list (list oQ)) (cns : option (list (list oQ)))
+    (obs : outcome (list Q)) : bool :=
+  match create cfg m with
+  | Raise s => match obs with Raise s' => String.eqb s s' | _ => false end
+  | Abort _ => false
+  | Ok _ =>
+      match obs with
+      | Ok w => weights_ok cfg m objs cns w
+      | Abort c => abort_ok cfg m objs cns c
+      | Raise s => match method_weights cfg m objs cns with
+                   | None => String.eqb s "ConfigError"
+                   | Some _ => false
+                   end
+      end
+  end.
+
+(* end to end *)
+Record e2e_case := {
+  x_cfg : config;
+  x_filters : list method;
+  x_ofm : option (list Z);
+  x_cfm : option (list Z);
+  x_rmin : nat;
+  x_objs : list (list oQ);            (* as returned by the user's evaluator *)
+  x_cons : option (list (list oQ));
+  x_S : Q;                            (* largest input magnitude *)
+  x_obs : outcome evaluation          (* construction + calculate of the real EnsembleEvaluator *)
+}.
+
+Definition in_use (ofm cfm : option (list Z)) (k : Z) : bool :=
+  negb (none_applies (applies ofm k) && none_applies (applies cfm k)).
+
+Definition znth {A} (k : Z) (l : list A) : option A :=
+  if Z.ltb k 0 then None else nth_error l (Z.to_nat k).
+
+(* some filter in use ranks tied values: the outcome may depend on the (unspecified) tie order *)
+Definition e2e_has_ties (c : e2e_case) : bool :=
+  let (objs, cns) := propagate_nan (x_objs c) (x_cons c) in
+  existsb (fun km : nat * method =>
+             in_use (x_ofm c) (x_cfm c) (Z.of_nat (fst km)) &&
+             match method_inputs (x_cfg c) (snd km) objs cns with
+             | Some (values, failed) => negb (distinct_keys values failed)
+             | None => false
+             end)
+          (combine (seq 0 (length (x_filters c))) (x_filters c)).
+
+Definition rows_ok (c : e2e_case) (objs : list (list oQ)) (cns : option (list (list oQ)))
+    (fmap : option (list Z)) (count : nat) (obs model : option matrix) : bool :=
+  match obs, model with
+  | None, None => true
+  | Some om, Some mm =>
+      Nat.eqb (length om) count &&
+      forallb2 (fun (j : nat) (row : list Q) =>
+                  match fmap with
+                  | None => false
+                  | Some fm =>
+                      match znth (nth j fm (-1)%Z) (x_filters c) with
+                      | Some m => weights_ok (x_cfg c) m objs cns row
+                      | None => list_eqb Qeqb row (c_rw (x_cfg c))
+                      end
+                  end && forallb2 (close 1) row (nth j mm []))
+               (seq 0 count) om
+  | _, _ => false
+  end.
+
+Definition values_ok (S : Q) (obs model : list oQ) : bool := forallb2 (oclose S) obs model.
+
+Definition e2e_ok (c : e2e_case) : bool :=
+  if e2e_has_ties c then true
+  else
+    let cfg := x_cfg c in
+    let (objs, cns) := propagate_nan (x_objs c) (x_cons c) in
+    match evaluate cfg (x_filters c) (x_ofm c) (x_cfm c) (x_rmin c) (x_objs c) (x_cons c), x_obs c with
+    | Raise s, Raise s' => String.eqb s s'
+    | Abort a, Abort b => Z.eqb a b
+    | Ok me, Ok oe =>
+        list_eqb Bool.eqb (e_failed oe) (e_failed me) &&
+        rows_ok c objs cns (x_ofm c) (length (c_ow cfg)) (e_ow oe) (e_ow me) &&
+        rows_ok c objs cns (x_cfm c) (length (c_lower cfg)) (e_cw oe) (e_cw me) &&
+        match e_functions oe, e_functions me with
+        | None, None => true
+        | Some (fo, co), Some (fm, cm) =>
+            values_ok (x_S c) fo fm &&
+            match co, cm with
+            | None, None => true
+            | Some a, Some b => values_ok (x_S c) a b
+            | _, _ => false
+            end
+        | _, _ => false
+        end
+    | _, _ => false
+    end.
